@@ -11,7 +11,10 @@ Tie: (i) `_getTargetParamIndex`, `_getTargetParamSensIndex`, `_getTargetStateSen
 real objects against the Lean driver (`sensIndex`, `sensToGrad`) exactly, on integer arrays; (ii) DIRECT ORACLE
 (no Lean, no pygom kernels / integrator): `sensitivity`, `gradient`, `sensitivityIV`, `jac` against
 Richardson-extrapolated central differences of (a) the reference cost of C06 (independent DOP853 trajectory at
-1e-12 + scipy.stats log-densities) and (b) pygom's own `cost` / `costIV`.
+1e-12 + scipy.stats log-densities) and (b) pygom's own `cost` / `costIV`; (iii) HISTORY cases (losshist.py, oracle (a)):
+scripts of calls of all eleven entry points on one or two loss objects - sensitivity / gradient / jac / sensitivityIV /
+jacIV / diff_loss / diff_lossIV judged against the reference derivative for the values the object currently holds (the
+state machine `Held` / `step` of Pygom/Props/C06.lean); observations, x0, grid, weights, spreads in float and int containers.
 """
 import json
 import random
